@@ -28,6 +28,10 @@ from quara.simulation import standard_qtomography_simulation_flow as qflow
 
 QUARA_DIR = os.path.dirname(os.path.abspath(quara.__file__)) + os.sep
 
+from poolsim.simpool import module_state_baseline  # noqa: E402
+
+module_state_baseline()  # capture the import-time module state before any run touches it
+
 TIME_MODULES = [
     "quara.protocol.qtomography.standard.projected_linear_estimator",
     "quara.protocol.qtomography.standard.loss_minimization_estimator",
@@ -45,6 +49,9 @@ LINE_FILE_SETS = {
                   "projected_gradient_descent.py", "projected_gradient_descent_backtracking.py", "minimization_algorithm.py", "loss_minimization_estimator.py"),
     "csys": ("composite_system.py",),
     "simulation": ("standard_qtomography_simulation.py", "standard_qtomography_simulation_flow.py", "standard_qtomography_simulation_check.py"),
+    "protocol": ("linear_estimator.py", "projected_linear_estimator.py", "standard_qtomography_estimator.py", "standard_qtomography.py", "standard_qst.py", "standard_povmt.py",
+                 "standard_qpt.py", "standard_qmpt.py", "qtomography.py", "experiment.py", "data_generator.py", "number_util.py"),
+    "objects": ("qoperation.py", "state.py", "povm.py", "gate.py", "mprocess.py", "operators.py", "matrix_basis.py", "elemental_system.py"),
 }
 
 
@@ -283,7 +290,7 @@ def run_record(record, want_record=True, gen=None):
             continue
         ys = [t.get("yields", 0) for t in sched.get("threads", [])]
         if ys:
-            est = max(ys)
+            est = {"yields": max(ys), "sites": sorted(run["sim"].site_counts)}
         stats["steps"] += 1
         merge(stats["faults"], run["faults"])
         merge(stats["probes"], run["probes"])
@@ -322,12 +329,15 @@ def gen_schedule_header(rng, cfg, fault_free, est, si):
     if fault_free:
         # zero-fault configuration: one batch on worker 0, FIFO, no pre-emption, no pollution, monotone clock
         return {"proc": [], "threads": [], "pollution": [], "clock": [], "policy": {"kind": "none"}, "line_set": "none", "parent_seed": 2 + si, "fault_free": True}
-    if est and rng.random() < 0.5:
-        policy = {"kind": "pct", "d": rng.choice([1, 2, 3]), "est_yields": est}
+    r = rng.random()
+    if est and r < 0.3:
+        policy = {"kind": "pct", "d": rng.choice([1, 2, 3]), "est_yields": est["yields"]}
+    elif est and est.get("sites") and r < 0.65:
+        policy = {"kind": "site", "d": rng.choice([1, 2, 3, 5]), "sites": est["sites"]}
     else:
         policy = {"kind": "bernoulli", "rate": rng.choice([1e-4, 1e-3, 1e-3, 1e-2])}
     heavy = any(c["estimator"] == "lossmin" for c in cfg["cases"])
-    line_set = rng.choice(["none", "none", "csys", "simulation"] + ([] if heavy else ["loss_algo"]) + (["loss_algo"] if heavy and rng.random() < 0.15 else []))
+    line_set = rng.choice(["none", "none", "csys", "simulation", "protocol"] + ([] if heavy else ["loss_algo", "objects"]) + (["loss_algo"] if heavy and rng.random() < 0.15 else []))
     pollution, clock = gen_fault_script(rng, False)
     hdr = {"proc": [], "threads": [], "pollution": pollution, "clock": clock, "policy": policy, "line_set": line_set, "parent_seed": 2 + si}
     if rng.random() < 0.12:
